@@ -191,7 +191,11 @@ func (e *Enc) eval(env *Env, x ast.Expr) TV {
 			switch s := b.V.(type) {
 			case Sl:
 				if isByte(s.Elem) {
-					out = TV{V: Sc{e.byteAt(env.st, s, idx)}, Ty: types.Typ[types.Uint8]}
+					if e.opaqueReads {
+						out = TV{V: Sc{e.opaqueRead(env.st, s, idx, 1, true)}, Ty: types.Typ[types.Uint8]}
+					} else {
+						out = TV{V: Sc{e.byteAt(env.st, s, idx)}, Ty: types.Typ[types.Uint8]}
+					}
 				} else {
 					out = TV{V: e.load(Ptr{K: pElem, Sl: s, Idx: idx, Elem: s.Elem}, s.Elem), Ty: s.Elem}
 				}
@@ -404,6 +408,16 @@ func (e *Enc) evalBinary(env *Env, n *ast.BinaryExpr) TV {
 			c = e.isNil(env, bvv)
 		} else {
 			e.withState(env.st, func() { c = e.eqVal(av, bvv) })
+			// equality of two sequence ids: remember the pair (extensionality instance)
+			if x, ok := av.(Sc); ok && x.Sort == "BSeq" {
+				if y, ok := bvv.(Sc); ok {
+					ta, oka := e.seqByID[x.S]
+					tb, okb := e.seqByID[y.S]
+					if oka && okb {
+						e.recordSeqPair(ta, tb)
+					}
+				}
+			}
 		}
 		if n.Op == token.NEQ {
 			c = not(c)
@@ -614,6 +628,21 @@ func (e *Enc) evalCall(env *Env, n *ast.CallExpr) TV {
 		}
 		lo := e.asInt(env, e.eval(env, n.Args[1]))
 		hi := e.asInt(env, e.eval(env, n.Args[2]))
+		if lv, ok1 := litVal(lo); ok1 {
+			if hv, ok2 := litVal(hi); ok2 && hv >= lv && hv-lv <= 32 {
+				// small constant range: expand (keeps the query quantifier-free)
+				var cs []T
+				for k := lv; k < hv; k++ {
+					c := env.child()
+					c.names[id.Name] = TV{V: Sc{bv64(k)}, Ty: intT}
+					cs = append(cs, e.asBool(c, e.eval(c, n.Args[3])))
+				}
+				if name == "forall" {
+					return TV{V: Sc{and(cs...)}, Ty: boolT}
+				}
+				return TV{V: Sc{or(cs...)}, Ty: boolT}
+			}
+		}
 		e.nfresh++
 		qv := T{fmt.Sprintf("%s!q%d", id.Name, e.nfresh), SBV64}
 		c := env.child()
@@ -624,6 +653,19 @@ func (e *Enc) evalCall(env *Env, n *ast.CallExpr) TV {
 			return TV{V: Sc{T{fmt.Sprintf("(forall ((%s %s)) %s)", qv.S, SBV64, implies(rng, body).S), SBool}}, Ty: boolT}
 		}
 		return TV{V: Sc{T{fmt.Sprintf("(exists ((%s %s)) %s)", qv.S, SBV64, and(rng, body).S), SBool}}, Ty: boolT}
+	case "seqof":
+		a := e.asSl(env, e.eval(env, n.Args[0]))
+		var out T
+		e.withState(env.st, func() { out = e.seqOf(env.st, a) })
+		return TV{V: Sc{out}, Ty: nil}
+	case "seqLen":
+		a := e.eval(env, n.Args[0])
+		sc, ok := a.V.(Sc)
+		if !ok || sc.Sort != "BSeq" {
+			e.evalFail(env, "seqLen expects a sequence value")
+		}
+		e.usesSeq = true
+		return TV{V: Sc{T{"(seqlen " + sc.S + ")", SBV64}}, Ty: intT}
 	case "seqEq":
 		a, b := e.asSl(env, e.eval(env, n.Args[0])), e.asSl(env, e.eval(env, n.Args[1]))
 		var out T
@@ -676,7 +718,12 @@ func (e *Enc) evalCall(env *Env, n *ast.CallExpr) TV {
 			off = e.asInt(env, e.eval(env, n.Args[1]))
 		}
 		nb := map[string]int{"be64": 8, "be32": 4, "be16": 2, "le64": 8, "le32": 4, "le16": 2}[name]
-		t := e.readInt(env.st, s, off, nb, name[0] == 'b')
+		var t T
+		if e.opaqueReads {
+			t = e.opaqueRead(env.st, s, off, nb, name[0] == 'b')
+		} else {
+			t = e.readInt(env.st, s, off, nb, name[0] == 'b')
+		}
 		ty := map[int]types.Type{8: types.Typ[types.Uint64], 4: types.Typ[types.Uint32], 2: types.Typ[types.Uint16]}[nb]
 		return TV{V: Sc{t}, Ty: ty}
 	case "lexLess", "lexLE":
@@ -709,6 +756,9 @@ func (e *Enc) evalCall(env *Env, n *ast.CallExpr) TV {
 		for i, p := range sf.Params {
 			c.names[p] = e.eval(env, n.Args[i])
 		}
+		if e.opaqueReads && sf.Opaque && len(sf.Params) == 1 {
+			return e.opaqueSpec(env, sf, c)
+		}
 		return e.eval(c, sf.Body)
 	}
 	e.evalFail(env, "unknown function %q", name)
@@ -736,6 +786,76 @@ func (e *Enc) evalConv(env *Env, to types.Type, args []ast.Expr) TV {
 }
 
 // readInt reads an nb-byte integer at s[off:].
+// opaqueSpec: relational mode. A spec function of one byte slice becomes an
+// uninterpreted function of (array contents, offset, length). Its definition
+// is used, and proved against the code, in the per-function obligations.
+func (e *Enc) opaqueSpec(env *Env, sf *SpecFunc, c *Env) TV {
+	arg := c.names[sf.Params[0]]
+	s := e.asSl(env, arg)
+	srt, ok := e.specSorts[sf.Name]
+	if !ok {
+		// evaluate the definition once to learn the result sort
+		nl, nt, np, no := len(e.lines), len(e.seqTerms), len(e.seqPairs), len(e.opaqueSeqs)
+		r := e.eval(c, sf.Body)
+		v, t := e.materialize(c, r, nil)
+		e.lines, e.seqTerms, e.seqPairs, e.opaqueSeqs = e.lines[:nl], e.seqTerms[:nt], e.seqPairs[:np], e.opaqueSeqs[:no]
+		sc, isSc := v.(Sc)
+		if !isSc {
+			e.evalFail(env, "opaque spec %s must return a scalar", sf.Name)
+		}
+		srt = specSort{sort: sc.Sort, ty: t}
+		if e.specSorts == nil {
+			e.specSorts = map[string]specSort{}
+		}
+		e.specSorts[sf.Name] = srt
+		if srt.sort == "BSeq" {
+			e.usesSeq = true
+		}
+	}
+	arr := e.constFor("spa", sel(e.byteMem(env.st), s.Arr))
+	t := T{fmt.Sprintf("(u_%s %s %s %s)", sf.Name, arr.S, s.Off.S, s.Len.S), srt.sort}
+	if srt.sort == "BSeq" && e.loopDry == 0 {
+		e.opaqueSeqs = append(e.opaqueSeqs, opaqueSeqAt{t.S, len(e.lines)})
+	}
+	return TV{V: Sc{t}, Ty: srt.ty}
+}
+
+type specSort struct {
+	sort string
+	ty   types.Type
+}
+
+type opaqueSeqAt struct {
+	term string
+	at   int
+}
+
+// opaqueRead: relational mode. Multi-byte and single-byte reads in contract
+// expressions are uninterpreted functions of (array contents, index); the
+// definitions are used (and proved against the code) in the per-function
+// obligations only.
+func (e *Enc) opaqueRead(st *State, s Sl, off T, nb int, bigEndian bool) T {
+	end := "le"
+	if bigEndian {
+		end = "be"
+	}
+	fn := fmt.Sprintf("rd%d%s", nb*8, end)
+	if nb == 1 {
+		fn = "rd8"
+	}
+	arr := e.constFor("rda", sel(e.byteMem(st), s.Arr))
+	return T{fmt.Sprintf("(%s %s %s)", fn, arr.S, add(s.Off, off).S), bvSort(nb * 8)}
+}
+
+const preludeOpaque = `(declare-fun rd8 ((Array (_ BitVec 64) (_ BitVec 8)) (_ BitVec 64)) (_ BitVec 8))
+(declare-fun rd16be ((Array (_ BitVec 64) (_ BitVec 8)) (_ BitVec 64)) (_ BitVec 16))
+(declare-fun rd32be ((Array (_ BitVec 64) (_ BitVec 8)) (_ BitVec 64)) (_ BitVec 32))
+(declare-fun rd64be ((Array (_ BitVec 64) (_ BitVec 8)) (_ BitVec 64)) (_ BitVec 64))
+(declare-fun rd16le ((Array (_ BitVec 64) (_ BitVec 8)) (_ BitVec 64)) (_ BitVec 16))
+(declare-fun rd32le ((Array (_ BitVec 64) (_ BitVec 8)) (_ BitVec 64)) (_ BitVec 32))
+(declare-fun rd64le ((Array (_ BitVec 64) (_ BitVec 8)) (_ BitVec 64)) (_ BitVec 64))
+`
+
 func (e *Enc) readInt(st *State, s Sl, off T, nb int, bigEndian bool) T {
 	var t T
 	bs := make([]T, nb) // most significant first
